@@ -47,3 +47,16 @@ Fixpoint edges_ann (d : Z) (ok_above : bool) (t : tree) : list (id * id) :=
       ++ flat_map (edges_ann (d + 1) (ok_above && negb (stop n))) cs
   end.
 End EdgesPointwise.
+
+(** what DotExporter really draws (the child's stop is not consulted): used to
+    state the known finding exactly and to show that no admitted link is missing *)
+Section EdgesDot.
+Variables (f stop : id -> bool) (ml : option Z).
+Fixpoint edges_dot (d : Z) (ok_above : bool) (t : tree) : list (id * id) :=
+  match t with
+  | T n cs =>
+      let ok_n := ok_above && negb (stop n) && below d ml in
+      flat_map (fun c => if ok_n && f n && below (d + 1) ml && f (label c) then [(n, label c)] else []) cs
+      ++ flat_map (edges_dot (d + 1) (ok_above && negb (stop n))) cs
+  end.
+End EdgesDot.
